@@ -12,7 +12,10 @@ CHECKS = {
         text=("Lean 4 models of the whole NanoVM back end - lexer, parser, bytecode generator (module assembly included) and VM - and an independent reference "
               "semantics `Sem` in a VM and a native configuration. Proved: the two configurations coincide on every operator application except division/modulo "
               "by zero, the one documented point where the engines may differ, and that fault arises only there (cfg_agree_arith, divZero_only_from_zero_divisor, "
-              "vm_never_divZero). Compiler correctness is proved for the pure expression fragment, with no bound on size or nesting (compile_expr_correct, by induction "
+              "vm_never_divZero); and, for every construct the reference has - calls and recursion, globals, arrays, structs, for, break / continue / return, builtins - "
+              "that the two configurations give the same output and result for every program and every fuel unless the native run ends in the division fault "
+              "(reference_cfgs_agree), that an observation other than 'not decided by this much fuel' is the observation for every larger fuel (reference_fuel_stable), "
+              "hence decided_outcomes_agree (Lemmas/SemCfg.lean: one induction over the eight mutually recursive evaluators, related under two configurations and two fuel levels). Compiler correctness is proved for the pure expression fragment, with no bound on size or nesting (compile_expr_correct, by induction "
               "over the expression; Lemmas/VmExec.lean, Lemmas/CompileExpr.lean): for integer and boolean literals, local and global variables, unary minus and not, "
               "the eleven strict binary operators and short-circuit and/or, the bytes that compile_expr emits - decoded and dispatched by the VM model's own step "
               "function at any offset of any function of any module below 2 GiB - push exactly the value the reference computes and leave heap, output, globals, "
@@ -115,11 +118,11 @@ CHECKS = {
               "index in [0, len) and it is the element at that index, everything else stops (oob_stops); 2^32+k and negative indices are "
               "rejected (no 32-bit narrowing); and for the VM handler itself - the same execData that the lock-step runs tie to vm.c - "
               "OP_ARR_GET raises VM_ERR_OUT_OF_BOUNDS without output for an out-of-range index and pushes exactly es[idx] otherwise "
-              "(vm_arr_get); OP_ARR_SET / OP_ARR_REMOVE out of range, OP_ARR_POP on an empty array and STRUCT_GET / UNION_FIELD / TUPLE_GET beyond the field count raise the "
+              "(vm_arr_get; an enum value used as index counts as its number: vm_arr_get_enum_oob); OP_ARR_SET / OP_ARR_REMOVE out of range, OP_ARR_POP on an empty array and STRUCT_GET / UNION_FIELD / TUPLE_GET beyond the field count raise the "
               "error, push nothing, store nothing and print nothing (vm_arr_set_oob, vm_arr_remove_oob, vm_arr_pop_empty, vm_field_oob). The native and interpreter range tests are one-line transcriptions; they are tied to the code by whole-program "
               "runs. Check: NanoVM exhaustively over lengths x 19 boundary indices x get/set/remove/pop/tuple/struct/union field (model vs "
               "implementation + oracle), native binaries and compile-time interpreter on generated programs; element kind (int, float, bool, string, struct, nested array) x "
-              "(typed access, discarded access, store, removal, pop on empty) natively and on the VM from source."),
+              "(typed access, discarded access, store, removal, pop on empty) and operand shape (variable, row of a nested array, call result, struct field) natively and on the VM from source; int- and enum-valued indices on the VM."),
         note=TB + " Partial: nativeAccess/interpAccess model only the range test of dyn_array.c / eval.c; abort() and exit(1) behaviour of the host is observed, not modelled.",
         technique="Lean 4 proof (case analysis on exact int64 index arithmetic, handler-level theorem) + exhaustive boundary enumeration + differential correspondence",
         design="6/C08"),
